@@ -48,7 +48,7 @@ def sparse_stream_fails(rng, dynamic, d, n_inner, T, storage_kind, imputer_kind)
             ex = IncrementalPFI(model, loss, list(names), storage=st, imputer=imp, n_inner_samples=n_inner, **kw)
             est, var, nexp = {}, {}, 0
             for t in range(T):
-                x = {f: Q(rng.randint(-4, 4), rng.randint(1, 3)) for f in names}
+                x = {f: Q(rng.randint(-4, 4), rng.randint(1, 3)) + 10 * (t + 1) for f in names}     # unique per step
                 y = Q(rng.randint(-3, 3), 2)
                 sparse = t >= 1 and rng.random() < 0.5
                 if sparse:
@@ -67,17 +67,28 @@ def sparse_stream_fails(rng, dynamic, d, n_inner, T, storage_kind, imputer_kind)
                 want_n = 1 + d * (1 if imputer_kind == "default" else n_inner)
                 if len(inputs) != want_n:
                     return f"call {t + 1}: {len(inputs)} model evaluations, expected {want_n}"
-                if inputs[0] != x:
-                    return f"call {t + 1}: the unperturbed prediction was made on {inputs[0]} instead of the observation {x}"
+                # attribute every evaluation by CONTENT (the order of the evaluations is not prescribed): values are unique per step,
+                # so an input is either the observation itself or differs from it in exactly one feature
+                groups, plain = {f: [] for f in names}, 0
+                for z in inputs:
+                    if z == x:
+                        plain += 1
+                        continue
+                    diff = [f for f in names if (f in z) != (f in x) or (f in z and z[f] != x[f])]
+                    bg = ([defaults[diff[0]]] if imputer_kind == "default" else [r[diff[0]] for r in stored]) if len(diff) == 1 else []
+                    if len(diff) != 1 or set(z) - set(names) != set(x) - set(names) or diff[0] not in z or not any(z[diff[0]] == b for b in bg):
+                        return (f"call {t + 1} ({'sparse' if sparse else 'dense'} observation {x}): the model was evaluated on {z}, which is neither the "
+                                f"observation nor the observation with one feature replaced by a background value (stored: {stored})")
+                    groups[diff[0]].append(z)
+                if plain != 1:
+                    return f"call {t + 1}: the unperturbed observation {x} was evaluated {plain} times"
                 base = loss(y, pure_model(x))
-                per = (len(inputs) - 1) // d
+                per = 1 if imputer_kind == "default" else n_inner
                 for i, f in enumerate(names):
-                    zs = inputs[1 + i * per:1 + (i + 1) * per]
-                    for z in zs:
-                        bg = [defaults[f]] if imputer_kind == "default" else [r[f] for r in stored]
-                        if not (f in z and any(z[f] == b for b in bg) and {k: v for k, v in z.items() if k != f} == {k: v for k, v in x.items() if k != f}):
-                            return (f"call {t + 1} ({'sparse' if sparse else 'dense'} observation {x}): an inner prediction for feature {f!r} was made on {z}, "
-                                    f"not on the observation with only {f!r} replaced by a background value {bg}")
+                    zs = groups[f]
+                    if len(zs) != per:
+                        return (f"call {t + 1} ({'sparse' if sparse else 'dense'} observation {x}): {len(zs)} inner predictions with only {f!r} replaced, "
+                                f"expected {per}; evaluated inputs: {inputs}")
                     losses = [loss(y, pure_model(z)) for z in zs]
                     c = sum(losses, Q(0)) / len(losses) - base
                     old = est.get(f, Q(0))
